@@ -54,14 +54,36 @@ def order_check(ctx, a, stats):
                       replay=dict(part="grid", config=a.config))
 
 
+def skeleton_check(ctx, a, stats):
+    """the spacing function maps the last index to the contour length, whatever radial segment
+    the skeleton is regridded for: the regridded separatrix skeletons handed to the radial
+    segments of one poloidal region must coincide (same end points, same interior points)"""
+    mode = "orth" if a.side["mesh"]["user_options"].get("orthogonal", True) else "nonorth"
+    by_eq = {}
+    for reg in a.side["regions"]:
+        by_eq.setdefault(reg["eqname"], []).append(reg)
+    for eqname, segs in by_eq.items():
+        segs = sorted(segs, key=lambda r: r["radialIndex"])
+        s0 = segs[0]["skeleton"]
+        for sg in segs[1:]:
+            stats["skeleton_pairs"] += 1
+            sk = sg["skeleton"]
+            dd = float(np.hypot(sk[:, 0] - s0[:, 0], sk[:, 1] - s0[:, 1]).max()) if sk.shape == s0.shape else float("inf")
+            if dd > 1e-7:
+                ctx.violation("%s | separatrix skeleton regridded differently for different radial segments of one region" % mode,
+                              dict(config=a.config["label"], region=eqname, segment=sg["radialIndex"], distance=dd),
+                              replay=dict(part="grid", config=a.config))
+
+
 def run(ctx, arts=None):
-    stats = dict(steps=0, faces=0)
+    stats = dict(steps=0, faces=0, skeleton_pairs=0)
     n = 0
     if arts is None:
         arts = gu.select(ctx.tier, log=ctx.log)
     for a in gu.rotate(arts, ctx.seed):
         if a.ok:
             order_check(ctx, a, stats)
+            skeleton_check(ctx, a, stats)
             n += 1
     # ---- ny doubling pairs ----------------------------------------------------------------
     pairs = ny_pairs(ctx.tier)
@@ -153,6 +175,7 @@ def run(ctx, arts=None):
     ctx.add("grid_evaluations", n)
     ctx.add("grid_distinct_nontrivial", n)
     ctx.add("grid_contour_steps_judged", stats["steps"])
+    ctx.add("grid_skeleton_pairs_compared", stats["skeleton_pairs"])
     ctx.add("grid_faces_compared_under_ny_doubling", stats["faces"])
     ctx.set("grid_rule", "every successful corpus member (ordering), ny-doubling pairs per topology x mode, "
             "redistribution histories B, C, D from the lsn non-orthogonal start state (end points)")
